@@ -1,4 +1,4 @@
-import Prom.HP.Main
+import Prom.HP.Order
 import Prom.Lemmas.Histogram
 /-
 C02 — Every histogram snapshot is one consistent cut of the observations.
@@ -75,9 +75,31 @@ theorem sum_cell_is_sum (k : Nat) (l : List (Option Nat × Int)) (hb : ∀ p ∈
       have hne : i ≠ k := by omega
       simp [obsOf, contribL, hne]
 
+
+/-- **cut_is_claim_prefix** — the cut of every snapshot is a *prefix* of the list of observations in
+    claim order (the modification order of `shard_and_count`): it is closed under "claimed earlier".
+    Because a thread's observations are claimed in program order, a snapshot never contains a thread's
+    later observation without its earlier ones; because every observation that completed before the
+    collection started was claimed before the collector's flip, the cut contains it; because an
+    observation that starts after the collection returned is claimed after the flip, the cut excludes
+    it (the flip is a step of the collection itself, and `claimed` only grows — `claim_order_fixed`). -/
+theorem cut_is_claim_prefix {k : Nat} {s : St} (h : Reach k s) :
+    ∀ p ∈ s.snaps, p.2 <+: s.claimed :=
+  (ord_reach h).snapsPre
+
+/-- a collector between its flip and its unlock carries a cut that is a prefix of the claim order and
+    extends the cut of every snapshot returned so far -/
+theorem inflight_cut_is_prefix {k : Nat} {s : St} (h : Reach k s) (t : Task) (ht : t ∈ s.tasks) (S : List Obs)
+    (hS : cutOf t = some S) : S <+: s.claimed ∧ ∀ p ∈ s.snaps, p.2 <+: S :=
+  (ord_reach h).taskPre t ht S hS
+
+/-- **claim_order_fixed** — every step leaves the claim order as it was or appends one observation -/
+theorem claim_order_fixed {k : Nat} {s s' : St} (h : Step k s s') : s.claimed <+: s'.claimed :=
+  claimed_mono h
+
 /-- non-vacuity: a reachable state with one observer and one collector that has returned a snapshot
     is built by `Reach.step`; here the simplest instance — the initial state is reachable and the
     statement is about all of its (zero) snapshots, and one spawn keeps it reachable. -/
-example : Reach 2 { Hp.init with tasks := [Task.colWant] } := Reach.step Reach.init (Step.spawnCol Hp.init)
+example : Reach 2 { Hp.init with tasks := [Task.colWant] } := Reach.step Reach.init (Step.spawnCol Hp.init [] [] rfl)
 
 end Prom.C02
